@@ -398,14 +398,20 @@ def judge_lmds(run, cases):
                        case=c.line, detail=detail)
         if t.get("sqrt") != "ok":
             ctx.broken("contract:sqrt", "contract: sqrt", "sqrt contract violated by the observed values", case=c.line, detail=detail)
-        if t.get("eig") != "ok":
+        if t.get("eig") not in ("ok", "na"):
             ctx.stat("lmds:eig-contract-" + t.get("eig", "?"))
             if c.eig == "dense":
                 ctx.broken("contract:eig", "contract: eigensolver (residual / orthonormality)",
                            "the dense eigensolver's answer violates its contract: " + t.get("eig", "?"), case=c.line, detail=detail)
         post = t.get("post", "?")
         model = t.get("model")
-        if model == "ERR:div0":
+        if model == "ERR:sqrtneg":
+            ctx.stat("lmds:sqrt-of-negative-eigenvalue")
+            if post != "nonfinite":
+                ctx.broken("corr:lmds-sqrtneg", "correspondence LandmarkMDS (sqrt of a negative eigenvalue)",
+                           "an eigenvalue is negative (no sqrt value exists) but the implementation returns finite rows",
+                           case=c.line, detail=detail)
+        elif model == "ERR:div0":
             ctx.stat("lmds:model-div0")
             if post == "finite" and nl < c.n:
                 ctx.broken("corr:lmds-div0", "correspondence LandmarkMDS (zero eigenvalue)",
@@ -518,6 +524,9 @@ def judge_lisomap(run, cases):
             continue
         pre = t.get("pre", "?")
         ctx.stat("cmp:exact" if c.exact else "cmp:approx")
+        if t.get("model") == "ERR:sqrtneg":
+            ctx.stat("lisomap:root-of-negative-eigenvalue")
+            continue
         if pre.startswith("diff") or pre.startswith("bad") or (c.exact and pre != "eq"):
             ctx.broken("corr:lisomap-pre", "correspondence LandmarkIsomap: matrix handed to the eigensolver vs lisomapPre",
                        "the matrix Landmark Isomap hands to the eigensolver differs from the model (%s)" % pre,
